@@ -151,6 +151,7 @@ struct VTimer {
   int masked;           // SIGPROF blocked through sigprocmask() by the code under test
 };
 static VTimer vt;
+static usec_t g_clock0 = 0;              // initial value of the virtual clock (microseconds, --clock0)
 static void (*g_handler)(int) = 0;          // registered through sigaction(SIGPROF)
 static long g_n_setitimer = 0, g_n_getitimer = 0;
 
@@ -495,6 +496,7 @@ static void hard_reset() {
   { int was_masked = vt.masked; vt.pending = 0;
     if (was_masked) { sigset_t m; sigemptyset(&m); sigaddset(&m, SIGPROF); sigprocmask(SIG_UNBLOCK, &m, 0); } }
   memset(&vt, 0, sizeof vt);
+  vt.clock = g_clock0;
   memset(&M, 0, sizeof M);
   M.holder_model = -1;
   g_holder = &g_floor; g_nprio = 0;
@@ -597,19 +599,22 @@ static Script parse_script(const std::string& t) {
   while (is >> w) { Op o; o.k = w[0]; o.a = atoi(w.c_str() + 1); s.push_back(o); }
   return s;
 }
+// menus (centiseconds); the defaults are the stated alphabet, --delays / --advances / --deltas / --clock0 select
+// the "seconds-crossing" variants (deadlines in different whole seconds with crossing sub-second parts)
+static int DELAYS[3] = { 1, 2, 3 };
+static int ADVS[2] = { 1, 2 };
 static void enum_scripts(std::vector<Script>& out, Script& cur, int created, int alive, int maxlen) {
   if (!cur.empty()) out.push_back(cur);
   if ((int)cur.size() == maxlen) return;
-  if (created < 3) for (int d = 1; d <= 3; ++d) { Op o = { 'C', d }; cur.push_back(o); enum_scripts(out, cur, created + 1, alive | (1 << created), maxlen); cur.pop_back(); }
+  if (created < 3) for (int di = 0; di < 3; ++di) { int d = DELAYS[di]; Op o = { 'C', d }; cur.push_back(o); enum_scripts(out, cur, created + 1, alive | (1 << created), maxlen); cur.pop_back(); }
   for (int i = 0; i < 3; ++i) if (alive >> i & 1) { Op o = { 'D', i }; cur.push_back(o); enum_scripts(out, cur, created, alive & ~(1 << i), maxlen); cur.pop_back(); }
-  for (int d = 1; d <= 2; ++d) { Op o = { 'A', d }; cur.push_back(o); enum_scripts(out, cur, created, alive, maxlen); cur.pop_back(); }
+  for (int ai = 0; ai < 2; ++ai) { int d = ADVS[ai]; Op o = { 'A', d }; cur.push_back(o); enum_scripts(out, cur, created, alive, maxlen); cur.pop_back(); }
 }
 
 // ======================================================================================
 // one execution of a script under a schedule
 // ======================================================================================
 static bool g_flag_ctor = false;           // --ctor flag
-static const usec_t DRAIN = 40 * CS;
 
 // create(0): the constructor must throw std::invalid_argument and leave no trace
 static void api_create_zero() {
@@ -693,6 +698,10 @@ static RunResult run_schedule(const Script& s, const Jump* sched, int nsched) {
   // epilogue (not scheduled): let every alive watchdog expire, then destroy the survivors
   g_sched_on = false; upd_active();
   M.step = (int)s.size();
+  // long enough for every deadline plus the tolerance (a function of the script and the schedule only)
+  usec_t DRAIN = 40 * CS;
+  for (size_t k = 0; k < s.size(); ++k) if (s[k].k == 'C') DRAIN += 10 * (usec_t)s[k].a * CS;
+  for (int i = 0; i < nsched; ++i) DRAIN += 10 * sched[i].d;
   logev('A', (int)(DRAIN / CS));
   advance_clock(DRAIN);
   quiescent_checks("Watchdog::handle_timeout", true);
@@ -740,7 +749,9 @@ static std::string sched_json(const Jump* sched, int n) {
   return o + "]";
 }
 static std::string input_json(const Script& s, const Jump* sched, int n) {
-  return J().str("engine", "S").str("ctor", g_flag_ctor ? "flag" : "fn").str("script", script_str(s)).raw("schedule", sched_json(sched, n)).done();
+  J j; j.str("engine", "S").str("ctor", g_flag_ctor ? "flag" : "fn").str("script", script_str(s)).raw("schedule", sched_json(sched, n));
+  if (g_clock0) j.num("clock0_us", g_clock0);
+  return j.done();
 }
 
 // ======================================================================================
@@ -1240,6 +1251,66 @@ static void run_pool() {
 }
 
 // ======================================================================================
+// engine T: the Time class algebra against integer microsecond arithmetic (exhaustive over a grid)
+// ======================================================================================
+static const long T_SECS[] = { 0, 1, 2, 3, 59 };
+static const long T_USECS[] = { 0, 1, 10000, 250000, 499999, 500000, 600000, 999998, 999999 };
+static long long t_us(const WTime& t) { return (long long)t.seconds() * 1000000 + t.microseconds(); }
+static long long g_t_evals = 0, g_t_bad = 0;
+static void t_fail(const char* op, long xs, long xu, long ys, long yu, const std::string& got, const std::string& want) {
+  ++g_t_bad;
+  std::string site = (strncmp(op, "Watchdog_Traits", 15) == 0 ? std::string("") : std::string("Time::")) + op;
+  if (!violcap().admit(site)) return;
+  report_violation(site, std::string("time_algebra:") + op, "none",
+                   J().str("engine", "T").str("op", op).raw("x", "[" + std::to_string(xs) + "," + std::to_string(xu) + "]").raw("y", "[" + std::to_string(ys) + "," + std::to_string(yu) + "]").done(),
+                   got, want, "x and y are (seconds, microseconds); oracle: integer microsecond arithmetic");
+}
+static std::string tstr(const WTime& t) { return "(" + std::to_string(t.seconds()) + "s," + std::to_string(t.microseconds()) + "us)" + (t.microseconds() >= 0 && t.microseconds() < 1000000 ? "" : " NOT NORMALISED"); }
+static std::string bstr(bool b) { return b ? "true" : "false"; }
+static void t_pair(long xs, long xu, long ys, long yu) {
+  const WTime x(xs, xu), y(ys, yu);
+  long long a = xs * 1000000LL + xu, b = ys * 1000000LL + yu;
+#define TCMP(name, expr, want) do { ++g_t_evals; bool g_ = (expr); bool w_ = (want); if (g_ != w_) t_fail(name, xs, xu, ys, yu, bstr(g_), bstr(w_)); } while (0)
+  TCMP("operator==", x == y, a == b); TCMP("operator!=", x != y, a != b);
+  TCMP("operator<", x < y, a < b);    TCMP("operator<=", x <= y, a <= b);
+  TCMP("operator>", x > y, a > b);    TCMP("operator>=", x >= y, a >= b);
+  TCMP("Watchdog_Traits::less_than", PPL::Watchdog_Traits::less_than(x, y), a < b);
+#undef TCMP
+#define TVAL(name, val, want) do { ++g_t_evals; WTime v_ = (val); long long w_ = (want); if (t_us(v_) != w_ || v_.microseconds() < 0 || v_.microseconds() >= 1000000 || v_.seconds() < 0) t_fail(name, xs, xu, ys, yu, tstr(v_), std::to_string(w_) + "us"); } while (0)
+  TVAL("operator+", x + y, a + b);
+  TVAL("operator-", x - y, a >= b ? a - b : 0);
+  { WTime z(x); z += y; TVAL("operator+=", z, a + b); }
+  { WTime z(x); z -= y; TVAL("operator-=", z, a >= b ? a - b : 0); }
+#undef TVAL
+}
+static int time_algebra_check(double t0) {
+  int ns = sizeof T_SECS / sizeof *T_SECS, nu = sizeof T_USECS / sizeof *T_USECS;
+  for (int i = 0; i < ns; ++i) for (int j = 0; j < nu; ++j) for (int k = 0; k < ns; ++k) for (int l = 0; l < nu; ++l)
+    t_pair(T_SECS[i], T_USECS[j], T_SECS[k], T_USECS[l]);
+  // constructors / normalisation
+  for (long cs = 0; cs <= 1000; ++cs) {
+    ++g_t_evals; WTime t(cs);
+    if (t_us(t) != cs * 10000 || t.microseconds() >= 1000000 || !t.OK()) t_fail("Time(centisecs)", cs, 0, 0, 0, tstr(t), std::to_string(cs * 10000) + "us");
+  }
+  static const long MS[] = { 0, 1, 999999, 1000000, 1000001, 1999999, 2500000, 59999999 };
+  for (long sec = 0; sec <= 3; ++sec) for (size_t m = 0; m < sizeof MS / sizeof *MS; ++m) {
+    ++g_t_evals; WTime t(sec, MS[m]);
+    if (t_us(t) != sec * 1000000 + MS[m] || t.microseconds() >= 1000000 || !t.OK()) t_fail("Time(s,us)", sec, MS[m], 0, 0, tstr(t), std::to_string(sec * 1000000 + MS[m]) + "us");
+  }
+  { ++g_t_evals; WTime z; if (t_us(z) != 0) t_fail("Time()", 0, 0, 0, 0, tstr(z), "0us"); }
+  std::vector<std::string> samples;
+  samples.push_back(jstr("x=(1s,200000us) y=(0s,600000us): ==,!=,<,<=,>,>=,less_than,+,-,+=,-= against 1200000 and 600000"));
+  samples.push_back(jstr("Time(120) == (1s,200000us); Time(0, 2500000) == (2s,500000us)"));
+  J extra; extra.num("time_values", ns * nu).num("ordered_pairs", (long long)ns * nu * ns * nu).num("evaluations", g_t_evals).num("mismatches", g_t_bad)
+    .str("grid", "seconds in {0,1,2,3,59} x microseconds in {0,1,10000,250000,499999,500000,600000,999998,999999}; Time(cs) for cs in 0..1000; Time(s,us) with us up to 59999999");
+  J st; st.str("t", "stats").num("states", ns * nu).num("transitions", g_t_evals).num("traces_validated_against_impl", g_t_evals).boolean("exhaustive", true)
+    .str("bound", "engine T: Time comparison / addition / saturating subtraction / constructors over every ordered pair of a 45-value (seconds, microseconds) grid vs integer microsecond arithmetic")
+    .arr("samples", samples).raw("extra", extra.done()).dbl("wall_s", now_s() - t0);
+  sink().line(st.done());
+  return 0;
+}
+
+// ======================================================================================
 // replay of one recorded case
 // ======================================================================================
 static std::string json_field(const std::string& txt, const std::string& key) {
@@ -1256,6 +1327,15 @@ static int do_replay(const std::string& path) {
   size_t ip = txt.find("\"input\""); if (ip != std::string::npos) txt = txt.substr(ip);
   std::string engine = json_field(txt, "engine");
   g_flag_ctor = json_field(txt, "ctor") == "flag";
+  if (engine == "T") {
+    long xs = 0, xu = 0, ys = 0, yu = 0;
+    sscanf(json_field(txt, "x").c_str(), "[%ld,%ld]", &xs, &xu); sscanf(json_field(txt, "y").c_str(), "[%ld,%ld]", &ys, &yu);
+    const WTime x(xs, xu), y(ys, yu);
+    long long a = xs * 1000000LL + xu, b = ys * 1000000LL + yu;
+    printf("x=(%lds,%ldus) y=(%lds,%ldus)\n  observed: == %d  < %d  <= %d  > %d  >= %d  x+y %lldus  x-y %lldus\n  expected: == %d  < %d  <= %d  > %d  >= %d  x+y %lldus  x-y %lldus\n",
+           xs, xu, ys, yu, x == y, x < y, x <= y, x > y, x >= y, t_us(x + y), t_us(x - y), a == b, a < b, a <= b, a > b, a >= b, a + b, a >= b ? a - b : 0LL);
+    return 0;
+  }
   if (engine == "X") {
     g_engine_x = true;
     g_x_init = strtoull(json_field(txt, "initial_weight").c_str(), 0, 10);
@@ -1269,6 +1349,7 @@ static int do_replay(const std::string& path) {
     return 0;
   }
   Script s = parse_script(json_field(txt, "script"));
+  g_clock0 = atoll(json_field(txt, "clock0_us").c_str());
   std::string sch = json_field(txt, "schedule");
   Jump j[4]; int n = 0;
   for (size_t p = 1; p < sch.size() && n < 4; ) {
@@ -1325,14 +1406,19 @@ int main(int argc, char** argv) {
     sink().line(st.done());
     return 0;
   }
+  if (engine == "T") return time_algebra_check(t0);
   int maxlen = atoi(ARGS.opt("--len", "6").c_str());
   g_maxdev = atoi(ARGS.opt("--dev", ARGS.thorough() ? "2" : "1").c_str());
   if (ARGS.has("--deltas")) { long a, b, c; if (sscanf(ARGS.opt("--deltas").c_str(), "%ld,%ld,%ld", &a, &b, &c) == 3) { DELTAS[0] = a; DELTAS[1] = b; DELTAS[2] = c; } }
+  bool custom_menu = false;
+  if (ARGS.has("--delays")) { int a, b, c; if (sscanf(ARGS.opt("--delays").c_str(), "%d,%d,%d", &a, &b, &c) == 3) { DELAYS[0] = a; DELAYS[1] = b; DELAYS[2] = c; custom_menu = true; } }
+  if (ARGS.has("--advances")) { int a, b; if (sscanf(ARGS.opt("--advances").c_str(), "%d,%d", &a, &b) == 2) { ADVS[0] = a; ADVS[1] = b; custom_menu = true; } }
+  if (ARGS.has("--clock0")) g_clock0 = atoll(ARGS.opt("--clock0").c_str());
   { Script cur; enum_scripts(SCRIPTS, cur, 0, 0, maxlen); }
   // shortest scripts first: the first witnesses reported are the smallest
   std::stable_sort(SCRIPTS.begin(), SCRIPTS.end(), [](const Script& a, const Script& b) { return a.size() < b.size(); });
   // the throwing constructor path (not part of the script grammar): must throw, change nothing, leak nothing
-  { const char* extra[] = { "C0", "C2 C0 A1", "C1 C2 C0 D0", "C3 A1 C0 A2 C0" };
+  if (!custom_menu) { const char* extra[] = { "C0", "C2 C0 A1", "C1 C2 C0 D0", "C3 A1 C0 A2 C0" };
     for (int i = 0; i < 4; ++i) SCRIPTS.insert(SCRIPTS.begin() + i, parse_script(extra[i])); }
   if (ARGS.has("--script")) { SCRIPTS.clear(); SCRIPTS.push_back(parse_script(ARGS.opt("--script"))); }
   run_pool();
@@ -1356,8 +1442,11 @@ int main(int argc, char** argv) {
     .str("extra_scripts", "C0 | C2 C0 A1 | C1 C2 C0 D0 | C3 A1 C0 A2 C0 (create with 0 centiseconds must throw and leave no trace)")
     .str("constructor", g_flag_ctor ? "Watchdog(csecs, holder, flag)" : "Watchdog(csecs, void(*)())")
     .str("object_explored", "clang -O2 objects of src/Watchdog.cc, Time.cc, Handler.cc, Threshold_Watcher.cc and harness/c19_api.cc; scheduling point = before every load/store they execute inside ctor/dtor/handler");
-  std::string bound = "engine S: every well-formed script of length <= " + std::to_string(maxlen) + " over <= 3 watchdogs (create d in {1,2,3}cs, destroy, advance {1,2}cs); schedules: 0 jumps"
-    + (g_maxdev >= 1 ? ", every single jump (1,2,3cs) at every scheduling point" : "") + (g_maxdev >= 2 ? ", every pair of jumps (second jump pruned only where the complete continuation state was already explored)" : "");
+  char menus[256], jumps[96];
+  snprintf(menus, sizeof menus, "create d in {%d,%d,%d}cs, destroy, advance {%d,%d}cs; virtual clock starts at %lld us", DELAYS[0], DELAYS[1], DELAYS[2], ADVS[0], ADVS[1], (long long)g_clock0);
+  snprintf(jumps, sizeof jumps, "%g,%g,%gcs", (double)DELTAS[0] / CS, (double)DELTAS[1] / CS, (double)DELTAS[2] / CS);
+  std::string bound = "engine S: every well-formed script of length <= " + std::to_string(maxlen) + " over <= 3 watchdogs (" + menus + "); schedules: 0 jumps"
+    + (g_maxdev >= 1 ? std::string(", every single jump (") + jumps + ") at every scheduling point" : std::string("")) + (g_maxdev >= 2 ? ", every pair of jumps (second jump pruned only where the complete continuation state was already explored)" : "");
   J st; st.str("t", "stats").num("states", std::max<long long>(1, counter(C_STATES))).num("transitions", std::max<long long>(1, counter(C_POINTS)))
     .num("traces_validated_against_impl", counter(C_SCHED0) + counter(C_SCHED1) + counter(C_SCHED2)).boolean("exhaustive", complete)
     .str("bound", bound).arr("samples", samples).raw("extra", extra.done()).dbl("wall_s", now_s() - t0);
